@@ -127,7 +127,10 @@ class ProgGen:
         return f"{prefix}{self.counter}"
 
     def small_ty(self, depth=1):
-        return self.tg.ty(0 if "core" in self.features else depth)
+        if "core" in self.features:
+            # the fragment of Model/BitSem.lean: scalars; with "agg" also arrays and tuples of them
+            return self.tg.ty_plain(min(depth, 2), "structs" in self.features) if "agg" in self.features else self.tg.ty(0)
+        return self.tg.ty(depth)
 
     def int_ty(self):
         return INT(self.rng.choice(list(T.INTS)))
@@ -234,7 +237,13 @@ class ProgGen:
             choices += ["index", "index"]
         if "core" in self.features:
             # the fragment of Model/BitSem.lean
-            choices = ["if", "block"] + (["match"] if "match" in self.features else []) + (["call", "call"] if "helpers" in self.features and any(h["ret"] == ty for h in self.helpers) else []) + (["cmp", "cmp", "eq", "logic", "logic", "not", "castbool"] if k == "bool" else ["arith", "arith", "arith", "bit", "cast", "shift"] + (["unary"] if signed(ty) else []))
+            choices = ["if", "block"] + (["match"] if "match" in self.features else []) + (["call", "call"] if "helpers" in self.features and any(h["ret"] == ty for h in self.helpers) else [])
+            if any(t["k"] == "array" and t["elem"] == ty and t["n"] > 0 for _, t in self.components(1)):
+                choices += ["index", "index"]
+            if k in ("array", "tuple", "struct"):
+                choices += ["aggregate", "aggregate", "aggregate"]
+            else:
+                choices += (["cmp", "cmp", "eq", "logic", "logic", "not", "castbool"] if k == "bool" else ["arith", "arith", "arith", "bit", "cast", "shift"] + (["unary"] if signed(ty) else []))
         elif k == "bool":
             choices += ["cmp", "cmp", "eq", "logic", "logic", "not", "castbool"]
         elif k == "int":
@@ -350,6 +359,8 @@ class ProgGen:
 
     def e_eq(self, ty, d, pure):
         t = self.small_ty(1) if self.rng.random() < 0.5 else self.int_ty()
+        if "core" in self.features and t["k"] not in ("bool", "int"):
+            t = self.int_ty()           # `==` on aggregates is outside Model/BitSem.lean
         op = self.rng.choice(["==", "!="])
         a, b = self.expr(t, d - 1, pure), self.expr(t, d - 1, pure)
         if self.rng.random() < 0.3:
@@ -435,6 +446,8 @@ class ProgGen:
         """(text, ast, [(name, ty)])"""
         k = ty["k"]
         r = self.rng.random()
+        if "core" in self.features and "agg" not in self.features:
+            d = 0                       # no aggregates, no destructuring
         if d > 0 and k == "tuple" and ty["ts"] and r < 0.6:
             subs = [self.irrefutable(t, d - 1, False) for t in ty["ts"]]
             return ("(" + ", ".join(s[0] for s in subs) + ")", ["tuple", [s[1] for s in subs]], sum((s[2] for s in subs), []))
@@ -546,6 +559,8 @@ class ProgGen:
 
     def matchable(self, ty):
         k = ty["k"]
+        if "core" in self.features and "agg" not in self.features:
+            return k in ("bool", "int")
         if k == "array":
             return False
         if k == "tuple":
@@ -602,7 +617,7 @@ class ProgGen:
                 if "loops" in self.features:
                     choices += ["for", "for"]
         c = self.rng.choice(choices)
-        if "assign" in self.features and "core" not in self.features and not pure and self.rng.random() < 0.06:
+        if "assign" in self.features and ("core" not in self.features or "agg" in self.features) and not pure and self.rng.random() < 0.06:
             c = "nestedassign"
         self.note("stmt:" + c)
         return getattr(self, "s_" + c)(d, pure, muts)
@@ -681,7 +696,7 @@ class ProgGen:
         """an assignable place inside variable v: (text, path ast, type)"""
         text, path, ty = v["name"], [], v["ty"]
         oob = False
-        while self.rng.random() < (0.9 if oob else 0.6):
+        while ("core" not in self.features or "agg" in self.features) and self.rng.random() < (0.9 if oob else 0.6):
             k = ty["k"]
             if k == "array" and ty["n"] > 0:
                 r = self.rng.random()
